@@ -94,7 +94,10 @@ class ElectrumV2MnemonicDecoder(MnemonicDecoderBase):
         # Get words
         words = mnemonic_obj.ToList()
         # Detect language if it was not specified at construction
-        words_list, _ = self._FindLanguage(mnemonic_obj)
+        words_list, lang = self._FindLanguage(mnemonic_obj)
+        # Only the languages of Electrum v2 are allowed (the words list finder searches all the BIP39 ones)
+        if lang not in [v2_lang.value for v2_lang in ElectrumV2Languages]:
+            raise ValueError(f"Invalid language for an Electrum v2 mnemonic ({lang})")
 
         # Decode words
         n = words_list.Length()
